@@ -44,6 +44,9 @@ def step (line : String) : String :=
   | id :: _cls :: "rtrakp1" :: args => s!"{id} {evalRtRakp1 args}"
   | id :: _cls :: "send" :: args => s!"{id} {evalSend args}"
   | id :: _cls :: "sendhist" :: args => s!"{id} {evalSendHist args}"
+  | id :: _cls :: "sendu" :: args => s!"{id} {evalSend args}"
+  | id :: _cls :: "slsendu" :: args => s!"{id} {evalSlSend args}"
+  | id :: _cls :: "hsu" :: args => s!"{id} {evalHs args}"
   | id :: _cls :: "sendseq" :: args => s!"{id} {evalSendSeq args}"
   | id :: _cls :: "sendm" :: args => s!"{id} {evalSendM args}"
   | id :: _cls :: "slsend" :: args => s!"{id} {evalSlSend args}"
